@@ -26,6 +26,14 @@
 
 #define PROGRESS_INTERVAL_BYTES (10000000LL)
 
+// return through the common cleanup in jls_copy
+#define GOE(x)  do { \
+    rc = (x);                           \
+    if (rc) {                           \
+        goto exit;                      \
+    }                                   \
+} while (0)
+
 #define MSG_ERROR(description, ec) do {                                                             \
     char msg_str[1024];                                                                             \
     if (NULL != msg_fn) {                                                                           \
@@ -53,7 +61,8 @@ int32_t jls_copy(const char * src, const char * dst,
 
     rc = jls_raw_open(&rd, src, "r");
     if (rc && (rc != JLS_ERROR_TRUNCATED)) {
-        return rc;
+        rd = NULL;
+        goto exit;
     }
     offset = jls_raw_chunk_tell(rd);
     jls_raw_seek_end(rd);
@@ -62,8 +71,8 @@ int32_t jls_copy(const char * src, const char * dst,
 
     rc = jls_wr_open(&wr, dst);
     if (rc) {
-        jls_raw_close(rd);
-        return rc;
+        wr = NULL;
+        goto exit;
     }
 
     struct jls_chunk_header_s hdr;
@@ -76,14 +85,15 @@ int32_t jls_copy(const char * src, const char * dst,
             rc = jls_raw_chunk_scan(rd);
             if (rc) {
                 MSG_ERROR("jls_raw_chunk_scan", rc);
-                return rc;
+                goto exit;
             }
         }
         // printf("%" PRIi64 " %d %" PRIu32 "\n", offset, hdr.tag, hdr.payload_length);
         rc = jls_buf_realloc(buf, ((size_t) hdr.payload_length) + 16);  // payload + pad + CRC32 on disk
         if (rc) {
             MSG_ERROR("jls_buf_realloc", rc);
-            return JLS_ERROR_NOT_ENOUGH_MEMORY;
+            rc = JLS_ERROR_NOT_ENOUGH_MEMORY;
+            goto exit;
         }
         rc = jls_raw_rd_payload(rd, (uint32_t) buf->alloc_size, buf->start);
         if (rc) {
@@ -91,7 +101,8 @@ int32_t jls_copy(const char * src, const char * dst,
             rc = jls_raw_chunk_next(rd);
             if (rc) {
                 MSG_ERROR("jls_raw_chunk_next", rc);
-                return JLS_ERROR_IO;
+                rc = JLS_ERROR_IO;
+                goto exit;
             }
             offset = jls_raw_chunk_tell(rd);
             continue;
@@ -105,36 +116,36 @@ int32_t jls_copy(const char * src, const char * dst,
             case JLS_TAG_SOURCE_DEF: {
                 struct jls_source_def_s source;
                 source.source_id = hdr.chunk_meta;
-                ROE(jls_buf_rd_skip(buf, 64));
-                ROE(jls_buf_rd_str(buf, (const char **) &source.name));
-                ROE(jls_buf_rd_str(buf, (const char **) &source.vendor));
-                ROE(jls_buf_rd_str(buf, (const char **) &source.model));
-                ROE(jls_buf_rd_str(buf, (const char **) &source.version));
-                ROE(jls_buf_rd_str(buf, (const char **) &source.serial_number));
+                GOE(jls_buf_rd_skip(buf, 64));
+                GOE(jls_buf_rd_str(buf, (const char **) &source.name));
+                GOE(jls_buf_rd_str(buf, (const char **) &source.vendor));
+                GOE(jls_buf_rd_str(buf, (const char **) &source.model));
+                GOE(jls_buf_rd_str(buf, (const char **) &source.version));
+                GOE(jls_buf_rd_str(buf, (const char **) &source.serial_number));
                 if (source.source_id != 0) {
-                    ROE(jls_wr_source_def(wr, &source));
+                    GOE(jls_wr_source_def(wr, &source));
                 }
                 break;
             }
             case JLS_TAG_SIGNAL_DEF: {
                 struct jls_signal_def_s signal;
                 signal.signal_id = hdr.chunk_meta;
-                ROE(jls_buf_rd_u16(buf, &signal.source_id));
-                ROE(jls_buf_rd_u8(buf, &signal.signal_type));
-                ROE(jls_buf_rd_skip(buf, 1));
-                ROE(jls_buf_rd_u32(buf, &signal.data_type));
-                ROE(jls_buf_rd_u32(buf, &signal.sample_rate));
-                ROE(jls_buf_rd_u32(buf, &signal.samples_per_data));
-                ROE(jls_buf_rd_u32(buf, &signal.sample_decimate_factor));
-                ROE(jls_buf_rd_u32(buf, &signal.entries_per_summary));
-                ROE(jls_buf_rd_u32(buf, &signal.summary_decimate_factor));
-                ROE(jls_buf_rd_u32(buf, &signal.annotation_decimate_factor));
-                ROE(jls_buf_rd_u32(buf, &signal.utc_decimate_factor));
-                ROE(jls_buf_rd_skip(buf, 92));
-                ROE(jls_buf_rd_str(buf, (const char **) &signal.name));
-                ROE(jls_buf_rd_str(buf, (const char **) &signal.units));
+                GOE(jls_buf_rd_u16(buf, &signal.source_id));
+                GOE(jls_buf_rd_u8(buf, &signal.signal_type));
+                GOE(jls_buf_rd_skip(buf, 1));
+                GOE(jls_buf_rd_u32(buf, &signal.data_type));
+                GOE(jls_buf_rd_u32(buf, &signal.sample_rate));
+                GOE(jls_buf_rd_u32(buf, &signal.samples_per_data));
+                GOE(jls_buf_rd_u32(buf, &signal.sample_decimate_factor));
+                GOE(jls_buf_rd_u32(buf, &signal.entries_per_summary));
+                GOE(jls_buf_rd_u32(buf, &signal.summary_decimate_factor));
+                GOE(jls_buf_rd_u32(buf, &signal.annotation_decimate_factor));
+                GOE(jls_buf_rd_u32(buf, &signal.utc_decimate_factor));
+                GOE(jls_buf_rd_skip(buf, 92));
+                GOE(jls_buf_rd_str(buf, (const char **) &signal.name));
+                GOE(jls_buf_rd_str(buf, (const char **) &signal.units));
                 if (signal.signal_id != 0) {
-                    ROE(jls_wr_signal_def(wr, &signal));
+                    GOE(jls_wr_signal_def(wr, &signal));
                 }
                 break;
             }
@@ -146,7 +157,7 @@ int32_t jls_copy(const char * src, const char * dst,
                 struct jls_fsr_data_s * data = (struct jls_fsr_data_s *) buf->start;
                 // future: handle omitted data by looking at level 1 index & summary
                 // future: decompress if needed
-                ROE(jls_wr_fsr(wr, signal_id, data->header.timestamp,
+                GOE(jls_wr_fsr(wr, signal_id, data->header.timestamp,
                                data->data, data->header.entry_count));
                 break;
             }
@@ -164,7 +175,7 @@ int32_t jls_copy(const char * src, const char * dst,
             case JLS_TAG_TRACK_ANNOTATION_DATA: {
                 uint16_t signal_id = hdr.chunk_meta & 0x0fff;
                 struct jls_annotation_s * data = (struct jls_annotation_s *) buf->start;
-                ROE(jls_wr_annotation(wr, signal_id, data->timestamp, data->y,
+                GOE(jls_wr_annotation(wr, signal_id, data->timestamp, data->y,
                             data->annotation_type, data->group_id, data->storage_type,
                             data->data, data->data_size));
                 break;
@@ -177,7 +188,7 @@ int32_t jls_copy(const char * src, const char * dst,
             case JLS_TAG_TRACK_UTC_DATA: {
                 uint16_t signal_id = hdr.chunk_meta & 0x0fff;
                 struct jls_utc_data_s * data = (struct jls_utc_data_s *) buf->start;
-                ROE(jls_wr_utc(wr, signal_id, data->header.timestamp, data->timestamp));
+                GOE(jls_wr_utc(wr, signal_id, data->header.timestamp, data->timestamp));
                 break;
             }
             case JLS_TAG_TRACK_UTC_INDEX: break;
@@ -186,7 +197,7 @@ int32_t jls_copy(const char * src, const char * dst,
             case JLS_TAG_USER_DATA: {
                 enum jls_storage_type_e storage_type = (hdr.chunk_meta >> 12) & 0x000f;
                 if (storage_type != JLS_STORAGE_TYPE_INVALID) {
-                    ROE(jls_wr_user_data(wr, hdr.chunk_meta & 0x0fff, (hdr.chunk_meta >> 12) & 0x000f,
+                    GOE(jls_wr_user_data(wr, hdr.chunk_meta & 0x0fff, (hdr.chunk_meta >> 12) & 0x000f,
                                          buf->start, hdr.payload_length));
                 }
                 break;
@@ -205,7 +216,11 @@ int32_t jls_copy(const char * src, const char * dst,
     if (NULL != progress_fn) {
         progress_fn(progress_user_data, 1.0);
     }
+    rc = 0;
+
+exit:
     jls_raw_close(rd);
     jls_wr_close(wr);
-    return 0;
+    jls_buf_free(buf);
+    return rc;
 }
